@@ -79,7 +79,46 @@ var (
 	hookOn    atomic.Bool
 )
 
+// lock-discipline monitor: the data store mutex may be skipped (ds:lock-skipped) only while some command holds that
+// data store exclusively (between ds:exclusive-acquired and ds:exclusive-released)
+var (
+	lockMonitor   atomic.Bool
+	lockMu        sync.Mutex
+	exclusiveHeld = map[string]int{}
+	lockSkips     int64
+	lockViolCount int64
+	lockViolFirst string
+)
+
+func lockMonitorPoint(point string, id int64, detail string) {
+	ds := detail
+	if i := strings.Index(detail, "/"); i >= 0 {
+		ds = detail[:i]
+	}
+	lockMu.Lock()
+	defer lockMu.Unlock()
+	switch point {
+	case "ds:exclusive-acquired":
+		exclusiveHeld[ds]++
+	case "ds:exclusive-released":
+		exclusiveHeld[ds]--
+	case "ds:lock-skipped":
+		lockSkips++
+		if exclusiveHeld[ds] <= 0 {
+			lockViolCount++
+			if lockViolFirst == "" {
+				buf := make([]byte, 6000)
+				buf = buf[:runtime.Stack(buf, false)]
+				lockViolFirst = fmt.Sprintf("command id %d skipped the mutex of data store %s while nobody held that data store exclusively; stack: %s", id, ds, strings.ReplaceAll(strings.ReplaceAll(string(buf), "\n", " <- "), "\t", ""))
+			}
+		}
+	}
+}
+
 func hook(point string, id int64, detail string) {
+	if lockMonitor.Load() && strings.HasPrefix(point, "ds:") && point != "ds:before-lock" && point != "ds:after-unlock" {
+		lockMonitorPoint(point, id, detail)
+	}
 	if !hookOn.Load() {
 		return
 	}
@@ -378,6 +417,18 @@ func handle(verb string, a []string) string {
 		return "ok"
 	case "goroutines":
 		return fmt.Sprintf("ok %d", runtime.NumGoroutine())
+	case "lockmonitor": // lockmonitor on|off|report
+		switch a[0] {
+		case "on":
+			lockMonitor.Store(true)
+			return "ok"
+		case "off":
+			lockMonitor.Store(false)
+			return "ok"
+		}
+		lockMu.Lock()
+		defer lockMu.Unlock()
+		return fmt.Sprintf("ok %d %d %s", lockViolCount, lockSkips, strings.ReplaceAll(lockViolFirst, " ", "_"))
 	case "emugoroutines": // goroutines with a frame of the emulator package: "ok <n> <top emulator frame of each, |-separated>"
 		buf := make([]byte, 8<<20)
 		buf = buf[:runtime.Stack(buf, true)]
